@@ -66,14 +66,19 @@ theorem digit_not_ws (c : Char) (h : c.isDigit = true) : isWs c = false := by
 theorem digit_ne (c : Char) (h : c.isDigit = true) (d : Char) (hd : d.isDigit = false) : c ≠ d := by
   intro e; rw [e, hd] at h; cases h
 
-theorem dropWhile_noWs (l : List Char) (h : ∀ c ∈ l, isWs c = false) : l.dropWhile isWs = l := by
+theorem dropWhile_none (p : Char → Bool) (l : List Char) (h : ∀ c ∈ l, p c = false) : l.dropWhile p = l := by
   cases l with
   | nil => rfl
   | cons c t => simp [List.dropWhile, h c (List.mem_cons_self ..)]
 
-theorem strip_noWs (l : List Char) (h : ∀ c ∈ l, isWs c = false) : strip l = l := by
-  unfold strip
-  rw [dropWhile_noWs l h, dropWhile_noWs l.reverse (by simpa using h), List.reverse_reverse]
+theorem stripBy_none (p : Char → Bool) (l : List Char) (h : ∀ c ∈ l, p c = false) : stripBy p l = l := by
+  unfold stripBy
+  rw [dropWhile_none p l h, dropWhile_none p l.reverse (by simpa using h), List.reverse_reverse]
+
+theorem strip_noWs (l : List Char) (h : ∀ c ∈ l, isWs c = false) : strip l = l := stripBy_none isWs l h
+
+theorem stripInt_noWs (l : List Char) (h : ∀ c ∈ l, isWs c = false) : stripBy isWsInt l = l :=
+  stripBy_none isWsInt l (fun c hc => by simp [isWsInt, h c hc])
 
 theorem digits_isDigit (n : Nat) : ∀ c ∈ Nat.toDigits 10 n, c.isDigit = true :=
   fun _ hc => Nat.isDigit_of_mem_toDigits (by decide) (by decide) hc
@@ -107,7 +112,7 @@ theorem pyInt_digits (n : Nat) : pyInt (Nat.toDigits 10 n) = some (n : Int) := b
   have hD := digits_isDigit n
   have hne : Nat.toDigits 10 n ≠ [] := Nat.toDigits_ne_nil
   unfold pyInt
-  rw [strip_noWs _ (fun c hc => digit_not_ws c (hD c hc)), signBody_digits _ hD]
+  rw [stripInt_noWs _ (fun c hc => digit_not_ws c (hD c hc)), signBody_digits _ hD]
   simp only [validBodyAux_digits _ hD false (Or.inl hne), if_true, filter_digits _ hD,
     Nat.ofDigitChars_ten_toDigits, Bool.false_eq_true, if_false]
 
